@@ -200,3 +200,87 @@ theorem decodeSigMsg_attrs (b : Bytes) (m : SigMsgD) (h : decodeSigMsg b = some 
     | exact msgSignedData_attrs _ m h
 
 end Rpki.SigMsgDer
+
+namespace Rpki.SigMsgDer
+open Rpki.Der Rpki.CertDer Rpki.CmsDer
+
+theorem msgSignerInfo_spec (ct si sid attrs md sig : Bytes)
+    (h : msgSignerInfo ct si = some (sid, attrs, md, sig)) :
+    ∀ ct' md' st', SigObj.parseAttrs false attrs = some (ct', md', st') → ct' = ct ∧ md' = md := by
+  intro ct' md' st' hp
+  unfold msgSignerInfo at h
+  repeat' (split at h)
+  all_goals first
+    | (cases h; done)
+    | skip
+  simp only [Option.some.injEq, Prod.mk.injEq] at h
+  obtain ⟨_, e2, e3, _⟩ := h
+  subst e2 e3
+  simp_all
+
+theorem msgEncap_ct (r1 ct content r2 : Bytes) (h : msgEncap r1 = some (ct, content, r2)) :
+    ct = Consts.oidProtocolContentType := by
+  unfold msgEncap at h
+  repeat' (split at h)
+  all_goals first
+    | (cases h; done)
+    | skip
+  simp only [Option.some.injEq, Prod.mk.injEq] at h
+  obtain ⟨e, _, _⟩ := h
+  subst e
+  simp_all
+
+theorem msgSignerPart_spec (ct r4 sid attrs md sig : Bytes)
+    (h : msgSignerPart ct r4 = some (sid, attrs, md, sig)) :
+    ∀ ct' md' st', SigObj.parseAttrs false attrs = some (ct', md', st') → ct' = ct ∧ md' = md := by
+  unfold msgSignerPart at h
+  repeat' (split at h)
+  all_goals first
+    | (cases h; done)
+    | exact msgSignerInfo_spec _ _ _ _ _ _ h
+
+theorem msgSignedData_spec (sd : Bytes) (m : SigMsgD) (h : msgSignedData sd = some m) :
+    ∃ st, SigObj.parseAttrs false m.attrs = some (Consts.oidProtocolContentType, m.messageDigest, st) := by
+  obtain ⟨c, d, st, hp⟩ := msgSignedData_attrs sd m h
+  refine ⟨st, ?_⟩
+  unfold msgSignedData at h
+  cases h0 : msgHead sd with
+  | none => simp [h0] at h
+  | some r1 =>
+    simp only [h0] at h
+    cases h1 : msgEncap r1 with
+    | none => simp [h1] at h
+    | some q1 =>
+      obtain ⟨ct, content, r2⟩ := q1
+      have hct := msgEncap_ct _ _ _ _ h1
+      simp only [h1] at h
+      cases h2 : msgCertPart r2 with
+      | none => simp [h2] at h
+      | some q2 =>
+        obtain ⟨cert, r3⟩ := q2
+        simp only [h2] at h
+        cases h3 : msgCrlPart r3 with
+        | none => simp [h3] at h
+        | some q3 =>
+          obtain ⟨crl, r4⟩ := q3
+          simp only [h3] at h
+          cases h4 : msgSignerPart ct r4 with
+          | none => simp [h4] at h
+          | some q4 =>
+            obtain ⟨sid, attrs, md, sig⟩ := q4
+            simp only [h4] at h
+            injection h with h
+            subst h
+            simp only at hp ⊢
+            obtain ⟨e1, e2⟩ := msgSignerPart_spec _ _ _ _ _ _ h4 c d st hp
+            rw [hp, e1, e2, hct]
+
+theorem decodeSigMsg_spec (b : Bytes) (m : SigMsgD) (h : decodeSigMsg b = some m) :
+    ∃ st, SigObj.parseAttrs false m.attrs = some (Consts.oidProtocolContentType, m.messageDigest, st) := by
+  unfold decodeSigMsg at h
+  repeat' (split at h)
+  all_goals first
+    | (cases h; done)
+    | exact msgSignedData_spec _ m h
+
+end Rpki.SigMsgDer
